@@ -27,7 +27,9 @@ theorem step_done_semi (s : St L) (c : Char) (a : Array (PNode L)) (h : step par
   split at h
   · cases h
   split at h
-  · cases h
+  · split at h
+    · cases h
+    · exact absurd h (stepField_not_done s c a)
   · cases h
   · cases h
   · cases h
